@@ -223,14 +223,18 @@ func (s *Server) DidClose(ctx context.Context, params *protocol.DidCloseTextDocu
 func (s *Server) DidSave(ctx context.Context, params *protocol.DidSaveTextDocumentParams) error {
 	s.payeeTemplatesCache.Delete(params.TextDocument.URI)
 
+	path := uriToPath(params.TextDocument.URI)
+	if path == "" {
+		return nil
+	}
+	// The file changed on disk: documents that include it must not be served its cached parse,
+	// with or without a workspace.
+	s.loader.InvalidateFile(path)
 	if s.workspace != nil {
-		if path := uriToPath(params.TextDocument.URI); path != "" {
-			if content, ok := s.GetDocument(params.TextDocument.URI); ok {
-				s.workspace.UpdateFile(path, content)
-			} else if data, err := os.ReadFile(path); err == nil {
-				s.workspace.UpdateFile(path, string(data))
-			}
-			s.loader.InvalidateFile(path)
+		if content, ok := s.GetDocument(params.TextDocument.URI); ok {
+			s.workspace.UpdateFile(path, content)
+		} else if data, err := os.ReadFile(path); err == nil {
+			s.workspace.UpdateFile(path, string(data))
 		}
 	}
 	return nil
